@@ -43,15 +43,15 @@ type vfHostile struct {
 }
 
 type vfRobust struct {
-	t     *testing.T
-	tr    *vfTrace
-	g     *vfGamma
-	rnd   *rand.Rand
-	la    string
-	uport int
-	tport int
-	sink  *vfSink
-	ucli  *net.UDPConn
+	t      *testing.T
+	tr     *vfTrace
+	g      *vfGamma
+	rnd    *rand.Rand
+	la     string
+	uport  int
+	tport  int
+	sink   *vfSink
+	ucli   *net.UDPConn
 	nsent  int
 	cur    string
 	curCls string
@@ -241,7 +241,11 @@ func (r *vfRobust) mark(id string, raw []byte) {
 	r.cur = id
 	if dir := os.Getenv("VERIF_SCRATCH"); dir != "" {
 		b, _ := json.Marshal(vfM{"case": id, "cls": r.curCls, "hex": hex.EncodeToString(raw)})
-		os.WriteFile(filepath.Join(dir, "robust_current.json"), b, 0644)
+		// atomically: the process may die (that is what is being tested for) while the next mark is being written
+		tmp := filepath.Join(dir, "robust_current.json.tmp")
+		if os.WriteFile(tmp, b, 0644) == nil {
+			os.Rename(tmp, filepath.Join(dir, "robust_current.json"))
+		}
 	}
 }
 
@@ -365,7 +369,7 @@ func TestVfRobust(t *testing.T) {
 	r.sink = vfAllSinks.get(t, r.g.ip("10.0.1.6"), 5060)
 	vfAllSinks.get(t, r.g.ip("10.0.2.1"), 5062)
 	pcr := NewPreConfigRoute()
-	pcr.AddRouteItem("udp", "default", r.g.ip("10.0.1.6"))
+	pcr.AddRouteItem("udp", "elsewhere.example", r.g.ip("10.0.1.6")) // the sentinel and most class cases leave by this static route; anything else addressed to the service goes to the backend
 	res := NewPreConfigHostResolver()
 	for n, ip := range r.g.hosts() {
 		res.AddHostIP(n, ip)
@@ -485,5 +489,133 @@ func TestVfRobust(t *testing.T) {
 		r.one(id, "mutation-batch", []string{"udp", "tcp"}[(i/batch)%2], raws, false)
 		ncase++
 	}
+	// (3) out-of-protocol histories emitted by TLC (RobustHist): every message well-formed, all of one dialog,
+	// from a client address or from a backend's address, in both orientations of From / To
+	if in := vfEnv("VERIF_HIST", ""); in != "" && r.dead < 3 && !skip["NOHIST"] {
+		bsock, err := net.ListenUDP("udp", &net.UDPAddr{IP: net.ParseIP(r.g.ip("10.0.4.1")), Port: 5060})
+		if err != nil {
+			t.Fatalf("VF-INFRA cannot bind the backend's address: %v", err)
+		}
+		defer bsock.Close()
+		stride := vfEnvInt("VERIF_HIST_STRIDE", 100)
+		seen := map[string]bool{}
+		k := 0
+		vfReadBehaviours(t, in, func(raw []byte) {
+			if seen[string(raw)] || r.dead >= 3 {
+				return
+			}
+			seen[string(raw)] = true
+			var h []vfHistSym
+			if err := json.Unmarshal(raw, &h); err != nil {
+				t.Fatalf("bad history: %v", err)
+			}
+			k++
+			if len(h) > 2 && stride > 1 && (int64(k)+vfSeed())%int64(stride) != 0 {
+				return // every pair; a stride over the triples
+			}
+			var parts []string
+			for _, x := range h {
+				parts = append(parts, x.K+"/"+x.P+"/"+x.D)
+			}
+			cls := "history " + strings.Join(parts, " ")
+			id := fmt.Sprintf("hist%d", k)
+			if skipped(cls) || skip[id] {
+				return
+			}
+			r.curCls = cls
+			r.history(id, cls, h, bsock)
+			ncase++
+		})
+	}
 	fmt.Printf("VF cases=%d events=%d\n", ncase, tr.n)
+}
+
+type vfHistSym struct {
+	K string `json:"k"`
+	P string `json:"p"`
+	D string `json:"d"`
+}
+
+// history sends the messages of one out-of-protocol history (one dialog) and then the sentinel
+func (r *vfRobust) history(id, cls string, h []vfHistSym, bsock *net.UDPConn) {
+	var ms0, ms1 runtime.MemStats
+	runtime.ReadMemStats(&ms0)
+	total := 0
+	a, b := "<sip:a@a.example>;tag=ta-"+id, "<sip:service@svc.example.com>;tag=tb-"+id
+	for i, x := range h {
+		from, to := a, b
+		if x.D == "rev" {
+			from, to = b, a
+		}
+		notag := func(v string) string { return v[:strings.Index(v, ";")] }
+		cvia := fmt.Sprintf("SIP/2.0/UDP %s:5062;branch=z9hG4bK-%s-%d", r.g.ip("10.0.2.1"), id, i)
+		own := fmt.Sprintf("SIP/2.0/UDP %s:%d;branch=z9hG4bKown-%s", r.la, r.uport, id)
+		var start, cseq string
+		var hs []vfHdr
+		req := func(method string, dialog bool) {
+			start, cseq = method+" sip:service@svc.example.com SIP/2.0", "2 "+method
+			hs = append(hs, vfHdr{"Via", cvia}, vfHdr{"Max-Forwards", "70"})
+			if !dialog {
+				to = notag(to)
+			}
+		}
+		resp := func(status int, method string) {
+			start, cseq = fmt.Sprintf("SIP/2.0 %d X", status), "1 "+method
+			hs = append(hs, vfHdr{"Via", own}, vfHdr{"Via", fmt.Sprintf("SIP/2.0/UDP %s:5062;branch=z9hG4bK-%s-c", r.g.ip("10.0.2.1"), id)})
+		}
+		switch x.K {
+		case "resp2xx.invite":
+			resp(200, "INVITE")
+		case "resp1xx.invite":
+			resp(180, "INVITE")
+		case "resp4xx.invite":
+			resp(486, "INVITE")
+		case "resp2xx.subscribe":
+			resp(200, "SUBSCRIBE")
+			hs = append(hs, vfHdr{"Expires", "3600"})
+		case "resp2xx.bye":
+			resp(200, "BYE")
+		case "resp2xx.notag":
+			resp(200, "INVITE")
+			to = notag(to)
+		case "bye":
+			req("BYE", true)
+		case "reinvite":
+			req("INVITE", true)
+		case "notify":
+			req("NOTIFY", true)
+			hs = append(hs, vfHdr{"Subscription-State", []string{"active", "terminated"}[i%2]})
+		case "ack":
+			req("ACK", true)
+		case "info":
+			req("INFO", true)
+		case "cancel":
+			req("CANCEL", false)
+		case "newinvite":
+			req("INVITE", false)
+		case "subscribe":
+			req("SUBSCRIBE", false)
+			hs = append(hs, vfHdr{"Expires", "3600"})
+		}
+		hs = append(hs, vfHdr{"From", from}, vfHdr{"To", to}, vfHdr{"Call-ID", id}, vfHdr{"CSeq", cseq}, vfHdr{"Content-Length", "0"})
+		raw := vfRender(start, hs, nil)
+		r.mark(fmt.Sprintf("%s#%d", id, i), raw)
+		r.nsent++
+		total += len(raw)
+		dst := &net.UDPAddr{IP: net.ParseIP(r.la), Port: r.uport}
+		if x.P == "backend" {
+			bsock.WriteToUDP(raw, dst)
+		} else {
+			r.ucli.WriteToUDP(raw, dst)
+		}
+	}
+	r.nsent++
+	ok := r.waitSentinel(r.nsent, "udp")
+	runtime.ReadMemStats(&ms1)
+	if ok {
+		r.dead = 0
+	} else {
+		r.dead++
+	}
+	r.tr.Emit(vfM{"ev": "hostile", "case": id, "cls": cls, "tr": "udp", "bytes": total, "alloc_kib": int(int64(ms1.TotalAlloc-ms0.TotalAlloc) / 1024), "sentinel": ok, "garbage": false, "closed": false})
 }
